@@ -376,3 +376,87 @@ def run_async(fn, runtime):
         return anyio.run(fn, backend="asyncio")
     import trio
     return trio.run(fn)
+
+
+# ---------------------------------------------------------------------------------------------
+# HTTP/2 server peer: the real h2 library in the server role
+# ---------------------------------------------------------------------------------------------
+
+class H2Peer(Peer):
+    """An HTTP/2 server built on h2 (an independent decoder of what the client wrote and the generator
+    of what it reads).  `handler(peer, event)` reacts to h2 events by calling h2 methods on `peer.conn`;
+    outgoing bytes are collected and served to reads, cut by `segmenter(bytes) -> list[bytes]`."""
+
+    def __init__(self, handler=None, segmenter=None, alpn="h2", settings=None, eof_when_idle=False, auto_settings=True):
+        import h2.config
+        import h2.connection
+        self.conn = h2.connection.H2Connection(config=h2.config.H2Configuration(client_side=False, validate_inbound_headers=False,
+                                                                             normalize_inbound_headers=False, header_encoding=None))
+        self.handler = handler
+        self.segmenter = segmenter or (lambda b: [b])
+        self.alpn = alpn
+        self.settings = settings
+        self.out = []              # pending read results
+        self.events = []           # every h2 event seen, in order
+        self.written = bytearray()
+        self.started = False
+        self.eof_when_idle = eof_when_idle
+        self.errors = []
+        self.closed = False
+        self.frames_log = []       # (kind, stream_id, length) of DATA/HEADERS seen, for oracles
+
+    def on_tls(self, offer, server_hostname):
+        return self.alpn if (offer and self.alpn in offer) else None
+
+    def _start(self):
+        if not self.started:
+            self.started = True
+            if self.settings is not None:
+                self.conn.local_settings.update(self.settings) if False else None
+                self.conn.update_settings(self.settings) if False else None
+            self.conn.initiate_connection()
+            if self.settings:
+                self.conn.update_settings(self.settings)
+            self.flush()
+
+    def flush(self):
+        data = self.conn.data_to_send()
+        if data:
+            self.out.extend(s for s in self.segmenter(data) if s)
+
+    def push_raw(self, data):
+        self.out.extend(s for s in self.segmenter(data) if s)
+
+    def on_write(self, data):
+        import h2.exceptions
+        self.written += data
+        self._start()
+        try:
+            events = self.conn.receive_data(data)
+        except h2.exceptions.ProtocolError as e:
+            self.errors.append(repr(e))
+            self.flush()
+            return
+        for ev in events:
+            self.events.append(ev)
+            if self.handler:
+                self.handler(self, ev)
+        self.flush()
+
+    def on_read(self, max_bytes):
+        self._start()
+        if not self.out:
+            if self.eof_when_idle:
+                return b""
+            raise Starved()
+        c = self.out.pop(0)
+        if len(c) > max_bytes:
+            self.out.insert(0, c[max_bytes:])
+            c = c[:max_bytes]
+        return c
+
+    def readable(self):
+        return bool(self.out)
+
+    def on_close(self):
+        self.closed = True
